@@ -69,3 +69,20 @@ Fixpoint spec_sleeps_from (rev_prefix : list bool) (outcomes : list bool) : list
   | false :: r => fails_before rev_prefix :: spec_sleeps_from (false :: rev_prefix) r
   end.
 Definition spec_sleeps (outcomes : list bool) : list Z := spec_sleeps_from [] outcomes.
+
+(* total time slept by the poll loop: the retry counts of the successive sleeps
+   (sleeps) paired with the PRNG draws of the successive addJitter calls; d is
+   the delay function (delay with the regenerated constants) *)
+Fixpoint total_wait (d : Z -> Z -> Z) (ns ks : list Z) : Z :=
+  match ns, ks with
+  | n :: ns', k :: ks' => d n k + total_wait d ns' ks'
+  | _, _ => 0
+  end.
+
+(* number of failed list calls in an outcome pattern *)
+Fixpoint failures (outcomes : list bool) : Z :=
+  match outcomes with
+  | [] => 0
+  | true :: r => failures r
+  | false :: r => 1 + failures r
+  end.
